@@ -165,12 +165,16 @@ def nematic_q(u):
     return (d * u[..., :, None] * u[..., None, :] - np.eye(d)) / 2.0
 
 
-def nematic_cg(Q, nblists):
-    """nblists[f][i] = list of 0-based neighbour indices of particle i in frame f."""
+def nematic_cg(Q, nblists, nmax=None):
+    """nblists[f][i] = list of 0-based neighbour indices of particle i in frame f (a neighbour listed twice counts
+    twice: the sum runs over the N_i listed entries).  nmax: the neighbour-file reader keeps at most nmax entries per
+    particle (the first nmax, contract of C05); None = keep all."""
     out = np.empty_like(Q)
     for f in range(Q.shape[0]):
         for i in range(Q.shape[1]):
             nb = list(nblists[f][i])
+            if nmax is not None:
+                nb = nb[:nmax]
             acc = Q[f, i].copy()
             for j in nb:
                 acc = acc + Q[f, j]
@@ -189,14 +193,15 @@ def nematic_eig(Q):
     return 2.0 * np.linalg.eigvalsh(sym)[..., -1]
 
 
-def neighbour_text(nblists):
+def neighbour_text(nblists, sep=" ", trail=False, header="id     cn     neighborlist"):
     """Neighbour-list file in the format of the library's writers: per frame a header line
-    'id cn neighborlist', then 'id cn n1 n2 ...' with 1-based ids."""
+    'id cn neighborlist', then 'id cn n1 n2 ...' with 1-based ids.  sep / trail / header vary the white space the way
+    the library's own writers do (cal_neighbors: single blanks and a trailing blank; Nnearests: several blanks)."""
     lines = []
     for frame in nblists:
-        lines.append("id     cn     neighborlist")
+        lines.append(header)
         for i, nb in enumerate(frame):
-            lines.append(" ".join([str(i + 1), str(len(nb))] + [str(j + 1) for j in nb]))
+            lines.append(sep.join([str(i + 1), str(len(nb))] + [str(j + 1) for j in nb]) + (sep if trail else ""))
     return "\n".join(lines) + "\n"
 
 
@@ -253,6 +258,33 @@ DIAMOND_BASIS = np.array([(0, 0, 0), (.5, .5, 0), (.5, 0, .5), (0, .5, .5),
 
 
 def diamond(reps):
-    """Fractional coordinates (w.r.t. the supercell) of a diamond lattice of reps^3 conventional cells."""
-    cells = np.array([(a, b, c) for a in range(reps) for b in range(reps) for c in range(reps)], dtype=float)
-    return (cells[:, None, :] + DIAMOND_BASIS[None, :, :]).reshape(-1, 3) / float(reps)
+    """Fractional coordinates (w.r.t. the supercell) of a diamond lattice of rx x ry x rz conventional cells
+    (an int means the same count along every axis)."""
+    rx, ry, rz = (reps, reps, reps) if np.isscalar(reps) else reps
+    cells = np.array([(a, b, c) for a in range(rx) for b in range(ry) for c in range(rz)], dtype=float)
+    return (cells[:, None, :] + DIAMOND_BASIS[None, :, :]).reshape(-1, 3) / np.array([rx, ry, rz], dtype=float)
+
+
+# primitive (rhombohedral) cell of the diamond structure in LAMMPS lower-triangular form, for lattice constant 1:
+# fcc primitive vectors of length 1/sqrt(2) at 60 degrees to each other; two-atom basis {0, (a1 + a2 + a3)/4}
+DIAMOND_PRIMITIVE = np.array([[1.0, 0.0, 0.0],
+                              [0.5, math.sqrt(3.0) / 2.0, 0.0],
+                              [0.5, 1.0 / (2.0 * math.sqrt(3.0)), math.sqrt(2.0 / 3.0)]]) / math.sqrt(2.0)
+
+
+def diamond_primitive(reps, negative_tilt=False):
+    """(H, frac) of an n1 x n2 x n3 supercell of the two-atom primitive diamond cell (lattice constant 1): H is lower
+    triangular with tilt factors xy = n2/(2 n1) lx, xz = n3/(2 n1) lx, yz = n3/(3 n2) ly; with negative_tilt the second
+    primitive vector is replaced by a2 - a1 (the same lattice, xy < 0).  Every atom has four neighbours at sqrt(3)/4
+    in perfect tetrahedral arrangement; for n >= 2 along every axis the bond vectors have fractional components of
+    modulus <= 0.375, so they are their own minimum images under fractional rounding."""
+    P = DIAMOND_PRIMITIVE.copy()
+    tau = P.sum(axis=0) / 4.0
+    if negative_tilt:
+        P[1] = P[1] - P[0]
+    n = np.array(reps, dtype=float)
+    H = P * n[:, None]
+    cells = np.array([(a, b, c) for a in range(reps[0]) for b in range(reps[1]) for c in range(reps[2])], dtype=float)
+    cart = np.vstack([cells @ P, cells @ P + tau])
+    frac = np.linalg.solve(H.T, cart.T).T
+    return H, frac - np.floor(frac)
